@@ -69,6 +69,21 @@ Case genHistory(Choices &c, int tier, const char *prop, bool tokenEmphasis) {
       if (c.chance(15)) { Op st; st.kind = "set"; st.a = {s, 1, 0}; cs.ops.push_back(st); }
       continue;
     }
+    if (c.chance(6)) {
+      // a settings walk around a redefinition: parse with one lookahead level, lower or raise it, define again, return to
+      // the first level and parse (what a definition leaves behind may depend on the level in force when it was made)
+      int la1 = c.chance(60) ? 2 : c.upto(2), la2 = c.chance(60) ? c.upto(1) : c.upto(2);
+      auto push = [&](const char *kind, std::vector<long> a) { Op o; o.kind = kind; o.a = a; cs.ops.push_back(o); };
+      push("set", {s, 0, la1});
+      if (c.chance(50)) push("define", {s, c.upto(ng - 1)});
+      push("parse", {s, c.upto(ni - 1), c.upto(2)});
+      push("set", {s, 0, la2});
+      push("define", {s, c.upto(ng - 1)});
+      push("set", {s, 0, la1});
+      push("parse", {s, c.upto(ni - 1), c.upto(2)});
+      if (c.flip()) push("parse", {s, c.upto(ni - 1), c.upto(2)});
+      continue;
+    }
     int what = c.upto(99);
     if (what < 42) { op.kind = "parse"; op.a = {s, c.upto(ni - 1), c.chance(tokenEmphasis ? 8 : 4) ? 3 : c.upto(2)}; }
     else if (what < 62) { op.kind = "define"; op.a = {s, c.upto(ng - 1)}; }
